@@ -5,7 +5,7 @@
    document statement is given below and decided per run by running the extracted
    reader on the implementation's text (partial). *)
 From Coq Require Import String Ascii List ZArith.
-From Prov Require Import Str Sexp Nsm Values Record World Provn ProvnSpec ProvnProofs.
+From Prov Require Import Str Sexp Spec Nsm Values Record World Provn ProvnSpec ProvnProofs IsoProofs SpecProofs ProvnSpecProofs.
 Import ListNotations.
 Open Scope string_scope.
 
@@ -26,6 +26,67 @@ Print Assumptions C06_string_literal_lexes_back.
 
 Definition C06_statement : Prop :=
   forall d, exists c, ProvnSpec.read (doc_provn d) = Some c.
+
+(* ---- end to end at value level: the tokens the independent reader's lexer cuts out of what the printer emits for
+   an attribute value, followed by anything that can follow a value, and what read_literal makes of them, are the
+   strict content of the value *)
+Theorem C06_value_str : forall t s rest f toks, sep_start rest -> lex f rest = Some toks ->
+  lex (S f) (provn_value (VStr s) ++ rest) = Some (TStr s :: toks) /\
+  read_literal t (TStr s :: toks) = Some (content_value (VStr s), toks).
+Proof. exact provn_spec_str. Qed.
+Print Assumptions C06_value_str.
+Theorem C06_value_int : forall t z rest f toks, nonword_start rest -> lex f rest = Some toks ->
+  lex (S f) (provn_value (VInt z) ++ rest) = Some (TWord (str_of_Z z) :: toks) /\
+  read_literal t (TWord (str_of_Z z) :: toks) = Some (content_value (VInt z), toks).
+Proof. exact provn_spec_int. Qed.
+Theorem C06_value_time : forall t tm rest f toks, PStd t -> valid_dt tm = true ->
+  nonword_start rest -> lex f rest = Some toks ->
+  lex (S (S (S (S (S f))))) (provn_value (VTime tm) ++ rest) = Some (TStr (iso_print tm) :: TPct :: TWord "xsd:dateTime" :: toks) /\
+  read_literal t (TStr (iso_print tm) :: TPct :: TWord "xsd:dateTime" :: toks) = Some (content_value (VTime tm), toks).
+Proof. exact provn_spec_time. Qed.
+Print Assumptions C06_value_time.
+Theorem C06_value_float : forall t r iv g rest f toks, PStd t -> safe r = true ->
+  nonword_start rest -> lex f rest = Some toks ->
+  lex (S (S (S (S (S f))))) (provn_value (VFloat r iv g) ++ rest) = Some (TStr r :: TPct :: TWord "xsd:double" :: toks) /\
+  read_literal t (TStr r :: TPct :: TWord "xsd:double" :: toks) = Some (content_value (VFloat r iv g), toks).
+Proof. exact provn_spec_float. Qed.
+Theorem C06_value_bool : forall t b rest f toks, PStd t ->
+  nonword_start rest -> lex f rest = Some toks ->
+  lex (S (S (S (S (S f))))) (provn_value (VBool b) ++ rest)
+    = Some (TStr (if b then "1" else "0") :: TPct :: TWord "xsd:boolean" :: toks) /\
+  read_literal t (TStr (if b then "1" else "0") :: TPct :: TWord "xsd:boolean" :: toks) = Some (content_value (VBool b), toks).
+Proof. exact provn_spec_bool. Qed.
+(* a URI that needs no escaping; C06-F3 is the case of a URI holding a quote *)
+Theorem C06_value_uri : forall t u rest f toks, PStd t -> safe u = true ->
+  nonword_start rest -> lex f rest = Some toks ->
+  lex (S (S (S (S (S f))))) (provn_value (VId u) ++ rest) = Some (TStr u :: TPct :: TWord "xsd:anyURI" :: toks) /\
+  read_literal t (TStr u :: TPct :: TWord "xsd:anyURI" :: toks) = Some (content_value (VId u), toks).
+Proof. exact provn_spec_id. Qed.
+Theorem C06_value_qname : forall t q rest f toks, PStd t ->
+  ns_prefix (qn_ns q) <> "" -> contains_char colon (ns_prefix (qn_ns q)) = false ->
+  lookup (ns_prefix (qn_ns q)) t = Some (ns_uri (qn_ns q)) ->
+  contains_char "'"%char (qn_str q) = false ->
+  lex f rest = Some toks ->
+  lex (S f) (provn_value (VQn q) ++ rest) = Some (TQn (qn_str q) :: toks) /\
+  read_literal t (TQn (qn_str q) :: toks) = Some (content_value (VQn q), toks).
+Proof. exact provn_spec_qn. Qed.
+Theorem C06_value_lang : forall t lex0 c l rest f toks,
+  wordy (String c l) = true -> nonword_start rest -> lex f rest = Some toks ->
+  lex (S (S f)) (provn_value (VLit lex0 (Some (prov_qn "InternationalizedString")) (Some (String c l))) ++ rest)
+    = Some (TStr lex0 :: TLang (String c l) :: toks) /\
+  read_literal t (TStr lex0 :: TLang (String c l) :: toks)
+    = Some (content_value (VLit lex0 (Some (prov_qn "InternationalizedString")) (Some (String c l))), toks).
+Proof. exact provn_spec_lang. Qed.
+Theorem C06_value_foreign : forall t lex0 d rest f toks, PStd t ->
+  ns_prefix (qn_ns d) <> "" -> contains_char colon (ns_prefix (qn_ns d)) = false ->
+  lookup (ns_prefix (qn_ns d)) t = Some (ns_uri (qn_ns d)) ->
+  wordy (qn_str d) = true ->
+  starts_with spec_xsd_uri (qn_uri d) = false ->
+  nonword_start rest -> lex f rest = Some toks ->
+  lex (S (S (S (S (S f))))) (provn_value (VLit lex0 (Some d) None) ++ rest) = Some (TStr lex0 :: TPct :: TWord (qn_str d) :: toks) /\
+  read_literal t (TStr lex0 :: TPct :: TWord (qn_str d) :: toks) = Some (content_value (VLit lex0 (Some d) None), toks).
+Proof. exact provn_spec_foreign. Qed.
+Print Assumptions C06_value_foreign.
 
 (* the printer and the reader on a document with every argument mask, an anonymous
    and an identified relation, a bundle with its own prefix, nasty strings *)
